@@ -89,7 +89,10 @@ def verify_list(cx, tree, step):
     got_t = parse_trecs(cx.m(['parseterm ' + hx(sec)])[0])
     cx.evals += len(exp_t)
     cx.kinds.add('list_stdout')
-    if got_t != exp_t:
+    if got_t is not None and got_t != exp_t and sorted(got_t) == sorted(exp_t):
+        cx.bad(step + '_stdout_order', 'list stdout shows exactly the files and links of the tree but not in the modelled order (per disk: files by path, then links by path)',
+               {'first_difference': repr(next((a, b) for a, b in zip(got_t, exp_t) if a != b))}, drift=True)
+    elif got_t != exp_t:
         d = None
         if got_t is not None:
             d = next(((a, b) for a, b in zip(got_t, exp_t) if a != b), ('length', len(got_t), len(exp_t)))
@@ -221,22 +224,25 @@ def verify_status(cx, tree, step, exp):
         return
     bad = sorted(exp['bad'])
     e_bad = [len(bad), bad[0] if bad else 0, bad[-1] if bad else 0]
-    if (c_un, c_us, c_rh, c_bad) != (len(exp['unsynced']), len(exp['unscrubbed']), 0, e_bad) or len(blocks) != exp['blockmax']:
+    e_us = c_us if exp['unscrubbed'] is None else len(exp['unscrubbed'])
+    if (c_un, c_us, c_rh, c_bad) != (len(exp['unsynced']), e_us, 0, e_bad) or len(blocks) != exp['blockmax']:
         cx.bad(step, 'status reports unsynced=%d unscrubbed=%d rehash=%d bad=%s over %d stripes; the tree history implies unsynced=%d unscrubbed=%d rehash=0 bad=%s over %d'
-               % (c_un, c_us, c_rh, c_bad, len(blocks), len(exp['unsynced']), len(exp['unscrubbed']), e_bad, exp['blockmax']),
+               % (c_un, c_us, c_rh, c_bad, len(blocks), len(exp['unsynced']), e_us, e_bad, exp['blockmax']),
                {'per_stripe': repr(blocks)[:3000], 'expected': repr({k: sorted(v) if isinstance(v, set) else v for k, v in exp.items()})[:3000]})
         return
     uns_dump = set(b[0] for b in blocks if b[3] and b[2])
-    if uns_dump != exp['unsynced'] or set(b[0] for b in blocks if b[4]) != exp['bad']:
+    inv_only = set(b[0] for b in blocks if b[3] and not b[2])
+    if uns_dump != exp['unsynced'] or set(b[0] for b in blocks if b[4]) != exp['bad'] or inv_only != exp.get('invalid_only', set()):
         cx.bad(step, 'the per-stripe dump of status marks other stripes unsynced/bad than the history implies', {'per_stripe': repr(blocks)[:3000]})
         return
     # the model's counting loop on the dumped stripes (justsynced bit from the expectation; cross-checked with info_time)
-    infos = ','.join(str(0 if t is None else (t | (1 if b else 0) | (2 if rh else 0) | (4 if i in exp['unscrubbed'] else 0))) for i, t, u, un, b, rh in blocks)
+    known = exp['unscrubbed'] is not None
+    infos = ','.join(str(0 if t is None else (t | (1 if b else 0) | (2 if rh else 0) | (4 if known and i in exp['unscrubbed'] else 0))) for i, t, u, un, b, rh in blocks)
     da = ','.join('1' if u else '0' for i, t, u, un, b, rh in blocks)
     db = ','.join('4' if un else '0' for i, t, u, un, b, rh in blocks)
     mo = cx.m(['status %d %s %s;%s' % (len(blocks), infos, da, db)])[0]
     cnt = sum(1 for b in blocks if b[1] is not None)
-    want = 'ok %d %d %d %d %d %d %d' % (c_bad[0], c_bad[1], c_bad[2], c_rh, cnt, c_un, c_us)
+    want = 'ok %d %d %d %d %d %d %d' % (c_bad[0], c_bad[1], c_bad[2], c_rh, cnt, c_un, c_us if known else 0)
     if mo != want or info_new != c_us or (info_count is not None and info_count != cnt):
         cx.bad(step + '_model', 'the status counting model disagrees with status.c on its own per-stripe dump: model %s, C %s (info_time new=%d, info_count=%s)' % (mo, want, info_new, info_count),
                {'model': mo, 'c': want}, drift=True)
@@ -409,6 +415,34 @@ def scenario_main(cx, rng, ndisks, per_byte, nextra, share=None):
         return
     verify_status(cx, tree, 'synced2', {'unsynced': set(), 'unscrubbed': set(range(bm2)), 'bad': set(), 'blockmax': bm2})
     verify_dup(cx, tree, 'dup3', walked2)
+    # delete the file with the highest positions (its stripes hold nothing else) and one in the middle of another disk;
+    # a sync limited to stripe 0 leaves their blocks DELETED: unsynced only where another disk still has a file block
+    allpos = dict(pos)
+    allpos.update(newpos)
+    top = max(allpos, key=lambda k: allpos[k])
+    others = sorted(set((n, sub) for (n, sub, i), p in allpos.items() if n != top[0] and p >= 2 and p < min(nd2) - 2))
+    victims = [(top[0], top[1])] + ([rng.choice(others)] if others else [])
+    for n, sub in victims:
+        os.remove(tree.path([x[0] for x in tree.disks].index(n), sub))
+    delpos = {}
+    for (n, sub, i), p in allpos.items():
+        if (n, sub) in victims:
+            delpos.setdefault(p, set()).add(n)
+    valid = set(p for (n, sub, i), p in allpos.items() if (n, sub) not in victims)
+    rc, out, logb, err = tool(cx.exe, tree, ['sync', '-B', '1'])
+    if rc != 0:
+        cx.bad('sync_partial_del', 'sync -B 1 after deletions exits %d' % rc, {'stderr': err[-800:].decode('latin1')})
+        return
+    # stripes that hold nothing but deleted blocks are not kept in the content file (state_write), so none is invalid-only
+    bm3 = max(valid) + 1
+    verify_status(cx, tree, 'deleted', {'unsynced': set(p for p in delpos if p >= 1 and p in valid), 'unscrubbed': None, 'bad': set(), 'blockmax': bm3,
+                                        'invalid_only': set()})
+    rc, out, logb, err = tool(cx.exe, tree, ['sync'])
+    verify_status(cx, tree, 'synced3', {'unsynced': set(), 'unscrubbed': None, 'bad': set(), 'blockmax': bm3})
+    walked3 = content_order(walked2, verify_list(cx, tree, 'list3'))
+    verify_dup(cx, tree, 'dup4', walked3)
+    pos = {k: v for k, v in pos.items() if (k[0], k[1]) not in victims}
+    bm2 = bm3
     # scrub everything, then silent corruption of two recorded blocks, scrub again
     rc, out, logb, err = tool(cx.exe, tree, ['scrub', '-p', '100', '-o', '0'])
     verify_status(cx, tree, 'scrubbed', {'unsynced': set(), 'unscrubbed': set(), 'bad': set(), 'blockmax': bm2})
@@ -436,7 +470,7 @@ def scenario_pool_rerun(cx, rng, ndisks=2, share=None):
     now = 1600000000
     for di in range(ndisks):
         for k, nm in enumerate([b'a\nb', b'only/in\\dir/x:y', b'keep/k%d' % di, b'sp ace%d' % di]):
-            tree.write(di, nm if di == 0 or k >= 2 else nm + b'2', bytes([65 + k]) * (500 * (k + 1)), (now + k) * 10 ** 9 + 5 + di)
+            tree.write(di, nm if di == 0 or k >= 2 else nm + b'%d' % (di + 1), bytes([65 + k]) * (500 * (k + 1)), (now + k) * 10 ** 9 + 5 + di)
     tree.symlink(0, b'keep/l\nnk', b'a\nb')
     rc, out, logb, err = tool(cx.exe, tree, ['sync'])
     walked = [(n, ) + walk_disk(d) for n, d in tree.disks]
@@ -509,6 +543,9 @@ def unit_correspondence(chk, drv, model, tier):
         cases.append(b'a' * k + b':')
         cases.append(b'a' * k + b' ')
     lines = []
+    cp = os.path.join(VERIF, 'corpus', 'C20', 'unit_cases.txt')
+    if os.path.exists(cp):
+        lines += [l.strip() for l in open(cp) if l.strip() and not l.startswith('#')]
     for c in cases:
         lines.append('esctag ' + hx(c))
         lines.append('escshell ' + hx(c))
